@@ -34,8 +34,11 @@ Round 2 — the Python side:
   (with `dxdtf_eq_rate` of Props/C01Dxdtf.lean, for size-1 systems, this is `three_agree`);
 Round 3 (Props/C01Total.lean): totality and dimension — on valid systems the kinetics functions return, with dimension
 amount/time, for every entry (`kinetics_total_graph`, `kinetics_total_grid`, `kinetics_eq_rate_*_total`).
-NOT proved: the step from "tables agree pointwise" (`marshal_read_*`, `split_layout`) to `eulerDxdt` on the decoded arrays (covered by ops `marshal` + `euler_step`);
-float rounding.
+Round 7 (Props/C01Marshal.lean): the step from "tables agree pointwise" (`marshal_read_*`, `split_layout`) to `eulerDxdt` on the
+DECODED marshalled arrays: `eulerDxdt_congr`, `marshal_euler_eq_rate_graph/_grid` (every units system of the engine),
+`kinetics_marshal_euler_agree_*` (SI).  Left there as `marshal_euler_general_units_partial`: reading the rate in `U` as the SI
+rate needs `physInU = scalePhys (physOfPy)`, i.e. the dimension invariants `buildSystem` establishes.
+NOT proved: float rounding.
 -/
 import Strengths.Proofs.Kinetics
 import Strengths.Proofs.Units
